@@ -548,6 +548,51 @@ func checkBoundaryTables(c *core.Ctx, prog *core.Prog) error {
 		r.Undecided("anchor:validate.String.Validate", "-", "not found")
 		return nil
 	}
+	// First by evaluation: String.Validate (helpers of the package are followed) over strings of n two-byte code points,
+	// with no format and no pattern, must reject exactly when (MinLengthSet && n < MinLength) || (MaxLengthSet && n > MaxLength).
+	// That decides the clause however the function is organised; the structural form below is the fallback when the
+	// evaluator cannot follow the code.
+	if fn, _ := ev.FindFunc(pkgValidate, "String.Validate"); fn != nil {
+		bad, und, n := 0, 0, 0
+		for _, mn := range []int64{1, 3} {
+			for _, mx := range []int64{1, 3} {
+				for _, ln := range []int64{0, 1, 2, 3, 4} {
+					for _, fl := range bools(2) {
+						recv := peval.Val{Kind: peval.Struct, Fields: map[string]peval.Val{
+							"MinLength": kInt(mn), "MinLengthSet": kBool(fl[0]), "MaxLength": kInt(mx), "MaxLengthSet": kBool(fl[1]),
+							"Email": kBool(false), "Hostname": kBool(false), "Regex": {Kind: peval.Nil},
+						}}
+						str := strings.Repeat("\u00e9", int(ln))
+						res := ev.Run(fn, []peval.Val{recv, peval.K(constant.MakeString(str))})
+						got, ok := rejects(res)
+						expect := (fl[0] && ln < mn) || (fl[1] && ln > mx)
+						n++
+						switch {
+						case !ok:
+							und++
+						case got != expect:
+							bad++
+							if bad <= 3 {
+								verdict := map[bool]string{true: "rejects", false: "accepts"}
+								r.Fail(fmt.Sprintf("table:String.Validate:len=%d min=%d(set=%v) max=%d(set=%v)", ln, mn, fl[0], mx, fl[1]), c.Pos(sv.Pos()), fmt.Sprintf("validate.String.Validate %s a string of %d code points (%d bytes) with minLength=%d(set=%v) maxLength=%d(set=%v), JSON Schema %s it", verdict[got], ln, 2*ln, mn, fl[0], mx, fl[1], verdict[expect]))
+							} else {
+								r.Ob(false, "")
+							}
+						default:
+							r.Ob(true, "")
+						}
+					}
+				}
+			}
+		}
+		if und == 0 {
+			if bad == 0 {
+				r.Pass(fmt.Sprintf("String.Validate: %d length configurations over multi-byte strings agree with the reference (code points, inclusive bounds)", n))
+			}
+			return nil
+		}
+		r.Note("String.Validate could not be tabulated by partial evaluation (%d of %d rows undecided): structural form checked instead", und, n)
+	}
 	okDeleg, okRune := false, false
 	for _, call := range core.Calls(sv) {
 		if !core.IsCallTo(call.Common(), pkgValidate, "Array.ValidateLength") {
